@@ -25,7 +25,7 @@ POOLS = {
     "uint8": [0, 1, 2, 7, 200, 255],
     "uint64": [0, 1, 3, 9007199254740993, 18446744073709551615],
     "bool": [True, False],
-    "str": ["", "a", "b", "ab", "B", "ä", "\U0001F600", "￿", "a" * 49, "z", "a,b", 'q"r', "x\ny"],
+    "str": ["", "a", "b", "ab", "B", "ä", "\U0001F600", "￿", "a" * 49, "z", "a,b", 'q"r', "x\ny", " ", "  ", "\u00a0"],
     "strlong": ["", "a" * 50, "a" * 50 + "x", "a" * 51, "b", "ab", "\U0001F600" * 50, "a" * 49],
     "date": [None, -719162, -1, 0, 1, 18000, 19000, 2932896],
     "datetime": [None, -62135596800000000, -1, 0, 1, 1600000000000000, 1600000000000001, 253402300799999999],
